@@ -1,8 +1,8 @@
 CONSTANTS
   Alphabet = {65, 61, 34, 92, 32, 47, 160}
-  MaxLen = 7
+  MaxLen = 6
   Defects = {}
-  Emit = TRUE
+  Emit = FALSE
 SPECIFICATION Spec
 INVARIANT TypeOK
 INVARIANT RunAgrees
@@ -14,5 +14,4 @@ INVARIANT Scalable
 INVARIANT Compositional
 INVARIANT ResetsBetweenItems
 INVARIANT OutIsAppendOnly
-INVARIANT EmitCase
 CHECK_DEADLOCK FALSE
